@@ -379,7 +379,8 @@ Fixpoint run (P : list pkgid) (VN FN : list name) (s : state) (ops : list op) : 
 Inductive xop :=
 | XB (o : op)
 | XSetqQ (p : pkgid) (n : name) (v : Z) (priv : bool)      (* priv: two colons *)
-| XDefvarQ (p : pkgid) (n : name) (v : Z) (priv : bool).
+| XDefvarQ (p : pkgid) (n : name) (v : Z) (priv : bool)
+| XFmakunboundQ (p : pkgid) (n : name) (priv : bool).      (* (fmakunbound 'p:n) / (fmakunbound 'p::n) *)
 
 (* the body of an operation run with CurrentPackage = p, the current package restored afterwards *)
 Definition as_pkg (s : state) (p : pkgid) (o : op) : state := step (step (step s (OInPkg p)) o) (OInPkg (cur s)).
@@ -412,14 +413,46 @@ Definition defvar_q (s : state) (p : pkgid) (n : name) (v : Z) (priv : bool) : s
   | _ => set_var_q s p n v priv
   end.
 
+(* fmakunbound on a qualified symbol (pkg/cl/fmakunbound.go as repaired by C13-14): when FindFunc resolves the
+   name (the rule of the call: exported, or two colons, or the function's home is the current package),
+   pkg.Undefine(name) - which does not look at the current package; otherwise nothing *)
+Definition fmakunbound_q (s : state) (p : pkgid) (n : name) (priv : bool) : state :=
+  match q_fun s (cur s) p n priv with
+  | QUnbound => s
+  | _ => as_pkg s p (OFmakunbound n)
+  end.
+(* the code before C13-14: CurrentPackage.Undefine("p:n"), a key no table holds: nothing happens *)
+Definition fmakunbound_q_orig (s : state) (p : pkgid) (n : name) (priv : bool) : state := s.
+
 Definition xstep (s : state) (o : xop) : state :=
   match o with
   | XB o => step s o
   | XSetqQ p n v priv => setq_q s p n v priv
   | XDefvarQ p n v priv => defvar_q s p n v priv
+  | XFmakunboundQ p n priv => fmakunbound_q s p n priv
   end.
 Fixpoint xrun (P : list pkgid) (VN FN : list name) (s : state) (ops : list xop) : list (list qres) :=
   match ops with
   | [] => []
   | o :: ops' => let s' := xstep s o in observe P VN FN s' :: xrun P VN FN s' ops'
   end.
+
+(* ---- the other resolutions of a FUNCTION name (added after the reported defect "fboundp of a qualified symbol
+   answers nil"): fboundp, symbol-function, (function name), fdefinition and function-lambda-expression applied
+   to a plain, p:n or p::n symbol.  As repaired by C13-14 all five go through FindFunc (function.go), the
+   resolution of the call itself: each says "defined" exactly when the call in the same slot does not signal
+   undefined-function.  An observation is the bit mask of the resolvers that say "defined" (bit 0 fboundp,
+   1 symbol-function, 2 function, 3 fdefinition, 4 function-lambda-expression): 31 or 0. ---- *)
+Definition fvis (r : qres) : bool := match r with QUnbound => false | _ => true end.
+Definition res_mask (r : qres) : N := if fvis r then 31 else 0.
+(* the code BEFORE C13-14: fboundp and symbol-function looked the whole string "p:n" up in the table of the
+   current package (Package.GetFunc), which never holds such a key: bits 0 and 1 missing on qualified names *)
+Definition res_mask_orig (qualified : bool) (r : qres) : N := if fvis r then (if qualified then 28 else 31) else 0.
+(* the function slots of an observation: per current package 14 variable answers, then 14 function answers *)
+Fixpoint fun_slots_n {A} (k : nat) (l : list A) : list A :=
+  match k with
+  | O => []
+  | S k' => firstn 14 (skipn 14 l) ++ fun_slots_n k' (skipn 28 l)
+  end.
+Definition fun_slots {A} (l : list A) : list A := fun_slots_n 3 l.
+Definition fobserve (obs : list qres) : list N := map res_mask (fun_slots obs).
